@@ -44,7 +44,12 @@ def check(chk):
               'C38.attach', ex, 'values from the statement by the model\'s key index, serialized by the model, attached with the keyspace', 'routing key hand-over changed')
     chk.judge('if model._partition_key_index' in s, 'C38.attach', ex, 'only models that compute routing keys', 'guard on _partition_key_index changed')
     rk = m.func('BaseModel._routing_key_from_values')
-    chk.judge('return cls._key_serializer(pk_values, protocol_version)' in src(rk), 'C38.serializer', rk, '_routing_key_from_values delegates to _key_serializer', 'delegation changed')
+    from ..sem import resolve
+    rets_rk = [n for n in body_walk(rk) if isinstance(n, ast.Return)]
+    fresh = bool(rets_rk) and all(r.value is not None and src(resolve(rk, r.value)) == 'cls._key_serializer(pk_values, protocol_version)' for r in rets_rk)
+    chk.judge(fresh, 'C38.serializer', rk, '_routing_key_from_values: every result is computed by this model\'s _key_serializer for these values',
+              'a routing key is returned that this call did not compute with the model\'s own serializer (%s): a value cached or shared across models / equal-but-differently-encoded values '
+              'yields another key\'s bytes and the statement is routed to the wrong replicas' % [src(r.value)[:50] for r in rets_rk if r.value is not None and src(resolve(rk, r.value)) != 'cls._key_serializer(pk_values, protocol_version)'])
     meta = m.func('ModelMetaClass.__new__')
     s = src(meta)
     good = 'key_cols = [c for c in partition_keys.values()]' in s and 'key_cql_types = [c.cql_type for c in key_cols]' in s and \
